@@ -15,7 +15,7 @@ class C03(LBCheck):
           'classes of events mixed in, length)')
   REQUIRED_CLASSES = ('heap', 'aperture', 'no-members', 'all-down-dispatch', 'member-down', 'member-up',
                       'removal-at-depth', 'rejoin', 'complete:reply', 'complete:error', 'complete:timeout',
-                      'dispatch-from-response-handler', 'yielding-log-handler')
+                      'dispatch-from-response-handler', 'yielding-log-handler', 'member-up-while-choosing')
   ASSUMPTIONS = ('member = channel incarnation; a re-joined endpoint is a new member',
                  'candidate set for the aperture balancer is read from its heap array at a quiescent '
                  'point just before each dispatch (the property is about "the members currently in its aperture")')
